@@ -212,7 +212,7 @@ fn main() {
             &opts,
             "exploration",
             "c08",
-            opts.cases(1500, 12000),
+            opts.cases(1800, 14000),
             jobs,
             "one evaluation = one run of the real rg binary. Per workload (tree of 2-25 text files from empty to ~200 KiB in nested directories, pattern foo, one of the modes heading / no-heading / context+heading / count / files-with-matches / files-without-match / JSON / --files / quiet / --sort path, 2-16 threads, in 1 of 5 workloads an injected EACCES on one file so that stderr is not empty): one single-threaded reference run, then 5 (quick) / 24 (thorough) runs with -jN whose worker threads are serialised by the preloaded scheduler under a fresh seed and strategy (random, PCT, sticky, round-robin) at every hooked yield point (walker deque/counter/flag operations, before each file's search, before each buffer print). Oracle: stdout parses into per-file blocks (each file contiguous, separators exactly between blocks) that are a permutation of the reference's blocks, byte-identical (JSON/--stats elapsed times masked); exit status equal; stderr equal as a multiset of lines; --sort path: byte-identical. distinct_nontrivial = distinct schedule traces with at least one preemption.",
             vec![
